@@ -145,10 +145,12 @@ def kernel_tables_validation(ctx: vlib.Ctx):
 # (M) which serializer is in force at the default-dialect level (choice model)
 # ---------------------------------------------------------------------------
 
-def strategy_choice_corr(ctx: vlib.Ctx):
+def strategy_choice_corr(ctx: vlib.Ctx, direction: str = "serialize"):
     from mashumaro.codecs._builder import CodecCodeBuilder
     from mashumaro.core.meta.types.common import FieldContext, ValueSpec
     from mashumaro.core.meta.types.pack import get_overridden_serialization_method
+    from mashumaro.core.meta.types.unpack import get_overridden_deserialization_method
+    getter = get_overridden_serialization_method if direction == "serialize" else get_overridden_deserialization_method
     from mashumaro.dialect import Dialect
     from mashumaro.helper import pass_through
     from mashumaro.mixins.msgpack import MessagePackDialect
@@ -164,6 +166,23 @@ def strategy_choice_corr(ctx: vlib.Ctx):
         def deserialize(self, v):
             return v
 
+    # callables of the format dialects carry the numbers kernel K13C gave them
+    import re as _re
+    known: dict[int, int] = {}
+    try:
+        k13c = _plugin("k13c_codec_plan.py")
+        _o, strats = k13c.dialect_tables()
+        real = {"OrjsonDialect": OrjsonDialect, "MessagePackDialect": MessagePackDialect, "TOMLDialect": TOMLDialect}
+        tname = {v: kk for kk, v in k13c.TYPE_IDS.items()}
+        for cname, ents in strats:
+            for txt in ents:
+                tid = int(txt[1:].split(",")[0])
+                rv = next(v for t, v in real[cname].serialization_strategy.items() if t.__name__ == tname[tid])
+                if isinstance(rv, dict):
+                    for dname, n in _re.findall(r'\("(serialize|deserialize)", (\d+)\)', txt):
+                        known[id(rv[dname])] = int(n)
+    except Exception:  # noqa: BLE001  (K13C's own validation reports a broken table)
+        known = {}
     r = ctx.rng
     types_ = [t for t in TYPE_IDS if t not in (int, str)] + [int]
     cases, descr = [], []
@@ -176,6 +195,8 @@ def strategy_choice_corr(ctx: vlib.Ctx):
         def num(o):
             if o is pass_through:
                 return 0
+            if id(o) in known:
+                return known[id(o)]
             if id(o) not in ids:
                 ids[id(o)] = 200 + len(ids)
                 keep.append(o)
@@ -202,7 +223,7 @@ def strategy_choice_corr(ctx: vlib.Ctx):
         b = CodecCodeBuilder.new(type_args=(), default_dialect=dd)
         b.reset()
         spec = ValueSpec(type=ty, expression="value", builder=b, field_ctx=FieldContext(name="", metadata={}))
-        got = get_overridden_serialization_method(spec)
+        got = getter(spec)
 
         def enc_usr(u):
             if u is None:
@@ -228,11 +249,12 @@ def strategy_choice_corr(ctx: vlib.Ctx):
         cases.append(f"({fmt}, {eu}, {TYPE_IDS[ty]}, {e})")
         descr.append(f"{fmt} {eu} type {ty.__name__} -> {e}")
         ctx.count(("choice", fmt, eu, ty.__name__))
-    okf = ("fun c => let '(f, usr, ty, e) := c in let g := effective (sm_get (codec_strategies f usr) ty) \"serialize\" in "
+    okf = ("fun c => let '(f, usr, ty, e) := c in let g := effective (sm_get (codec_strategies f usr) ty) \"" + direction + "\" in "
            "eff_eqb g e || (match g, e with EFun 0, EStrat 0 => true | _, _ => false end)")
-    bad, log = vlib.coq_bad_idx("c13_choice", "OptProj DialectMerge DialectDoc", "From VerifGen Require Import K13C.",
+    bad, log = vlib.coq_bad_idx("c13_choice_" + direction, "OptProj DialectMerge DialectDoc", "From VerifGen Require Import K13C.",
                                 "Open Scope nat_scope.\n", cases, okf, "choice_case", shard=500, needs=["theories/DialectDoc.vo"])
-    name = "serializer-choice-model-vs-get_overridden_serialization_method"
+    name = ("serializer-choice-model-vs-get_overridden_serialization_method" if direction == "serialize"
+            else "deserializer-choice-model-vs-get_overridden_deserialization_method")
     if bad is None:
         ctx.correspondence(name, len(cases), -1, log)
         ctx.not_shown("correspondence " + name, log)
@@ -447,7 +469,51 @@ def document_corr(ctx: vlib.Ctx):
     ctx.sample({"document_case": descr[0][:400]} if descr else {})
 
 
+def namedtuple_mode_corr(ctx: vlib.Ctx):
+    """nd_in_force (DialectDecode.v) vs the option the real builder resolves, exhaustively:
+    6 formats x user dialect {none, unset, True, False} x Config.dialect {unset, True, False} x Config {unset, True, False}."""
+    from dataclasses import dataclass
+    from mashumaro.config import BaseConfig
+    from mashumaro.core.meta.code.builder import CodeBuilder
+    from mashumaro.dialect import Dialect
+    from mashumaro.mixins.msgpack import MessagePackDialect
+    from mashumaro.mixins.orjson import OrjsonDialect
+    from mashumaro.mixins.toml import TOMLDialect
+    fmt_dialect = {"FOrjson": OrjsonDialect, "FMsgpack": MessagePackDialect, "FToml": TOMLDialect}
+    tri_name = {None: "U", True: "T", False: "F"}
+    cases, descr = [], []
+    for fmt in FMTS:
+        for dmode in ("none", None, True, False):
+            for cfgd in (None, True, False):
+                for cfg in (None, True, False):
+                    D = None if dmode == "none" else type("D", (Dialect,), {} if dmode is None else {"namedtuple_as_dict": dmode})
+                    dd = (fmt_dialect[fmt].merge(D) if D is not None else fmt_dialect[fmt]) if fmt in fmt_dialect else D
+                    cns = {}
+                    if cfg is not None:
+                        cns["namedtuple_as_dict"] = cfg
+                    if cfgd is not None:
+                        cns["dialect"] = type("CD", (Dialect,), {"namedtuple_as_dict": cfgd})
+                    T = dataclass(type("T", (), {"__annotations__": {"x": int}, "x": 1, "Config": type("Config", (BaseConfig,), cns)}))
+                    got = bool(CodeBuilder(T, default_dialect=dd).get_dialect_or_config_option("namedtuple_as_dict", False))
+                    Dn = "None" if dmode == "none" else f"(Some {tri_name[dmode]})"
+                    cases.append(f"({fmt}, {Dn}, {tri_name[cfgd]}, {tri_name[cfg]}, {'true' if got else 'false'})")
+                    descr.append((fmt, dmode, cfgd, cfg, got))
+                    ctx.count(("nd", fmt, str(dmode), cfgd, cfg))
+    bad, log = vlib.coq_bad_idx("c13_nd", "OptProj DialectMerge DialectDoc DialectDecode", "From VerifGen Require Import K13C.",
+                                "", cases, "nd_case_ok", "nd_case", shard=500, needs=["theories/DialectDecode.vo"])
+    name = "namedtuple-mode-model-vs-builder-resolution"
+    if bad is None:
+        ctx.correspondence(name, len(cases), -1, log)
+        ctx.not_shown("correspondence " + name, log)
+    else:
+        ctx.correspondence(name, len(cases), len(bad), str([descr[i] for i in bad[:4]]))
+        if bad:
+            ctx.not_shown("correspondence " + name, str([descr[i] for i in bad[:4]]))
+
+
 def run_all(ctx: vlib.Ctx):
     kernel_tables_validation(ctx)
     strategy_choice_corr(ctx)
+    strategy_choice_corr(ctx, "deserialize")
+    namedtuple_mode_corr(ctx)
     document_corr(ctx)
